@@ -212,6 +212,21 @@ Definition c_astore (m : list (option N)) (i v : cres Z) : cres (list (option N)
   k <- i ;; x <- v ;;
   if (0 <=? k) && (k <? Z.of_nat (length m)) then COk (aupd m (Z.to_nat k) (Some (Z.to_N x))) else COob.
 
+(* the object a `uint64_t *` (any non-byte scalar type) parameter that the
+   function indexes points to: a list of values, index i is p[i] *)
+Fixpoint zupd (m : list Z) (k : nat) (v : Z) : list Z :=
+  match m, k with
+  | [], _ => []
+  | _ :: t, O => v :: t
+  | h :: t, S k' => h :: zupd t k' v
+  end.
+Definition c_zload (m : list Z) (i : cres Z) : cres Z :=
+  k <- i ;;
+  if (0 <=? k) && (k <? Z.of_nat (length m)) then COk (nth (Z.to_nat k) m 0) else COob.
+Definition c_zstore (m : list Z) (i v : cres Z) : cres (list Z) :=
+  k <- i ;; x <- v ;;
+  if (0 <=? k) && (k <? Z.of_nat (length m)) then COk (zupd m (Z.to_nat k) x) else COob.
+
 (* a scalar object reached through a pointer (`uint64_t *pResult`, or a local
    whose address is passed to a callee): None = not assigned yet *)
 Definition c_cell_read (c : option Z) : cres Z :=
